@@ -711,6 +711,26 @@ def run(ctx) -> None:
     ok = len(rets) == 1 and isinstance(rets[0].value, ast.Name) and rets[0].value.id == OUTERR
     ctx.ob("C11.R4-every-component-resolved", rets[0] if rets else cv, ok, "validate returns the collected errors" if ok else "validate does not return out_errors")
 
+    # ---------------- R13 (obligation): what counts as a component reference is decided by the documented formula ---------------
+    # a reference that the parser files under "not a component" is never checked against the component identifiers: the classification
+    # formula of ParseDataReferenceFull (C09.R2, decided on its truth table) is therefore part of "a dangling reference is rejected" -
+    # dropping `hasIndex is False` on the reserved-folder arm lets 'stage0.data:ref' (no such component) load (seed C11-15)
+    from checks import c09 as _c09
+    from vlib.report import Ctx as _Ctx13
+    sub13 = _Ctx13("C09", ctx.tier, ctx.repo)
+    _c09.run(sub13)
+    n13 = 0
+    for o in sub13.obligations:
+        if o["rule"] == "C09.R2-sibling-classifiers":
+            o2 = dict(o)
+            o2["rule"] = "C11.R13-a-reference-is-known-by-stage-and-name"
+            o2["what"] = "[%s] %s" % (o["rule"], o["what"]) + ("" if o["ok"] else
+                          " - a reference the parser files under 'not a component' is never looked up, so a dangling reference of that shape is not rejected")
+            ctx.obligations.append(o2)
+            n13 += 1
+    ctx.functions_analysed |= sub13.functions_analysed
+    ctx.require(n13 >= 2, "anchor missing: the classifier obligations of C09.R2")
+
     # ---------------- R13: known means known in THAT stage -------------------------------------------------------
     vr = fl.functions.get("FlowIR.validate_references")
     ctx.require(vr is not None, "anchor missing: FlowIR.validate_references")
